@@ -307,3 +307,41 @@ def every_secret_tried(ctx):
                   'a key authorized through that secret does not open the encapsulation' % (k, how),
                   'session_key on every path through the loop body' + (' (classic secrets skipped in the hybridized opening)' if allow_classic_skip else ''),
                   inner.where())
+
+
+@rule('C01', 'hierarchy-order')
+def hierarchy_order(ctx):
+    """'Same or lower attribute in a hierarchical dimension': the rank order of a hierarchy must survive removals, renames
+    and round-trips, otherwise a higher key stops covering a lower attribute."""
+    from . import c03, c13
+    c03.dict_remove_shifts(ctx)
+    c03.rename_keeps_id(ctx)
+    c13.restricted(ctx, r'(dimension::Dimension|AccessStructure)$', [c13.agree, c13.order])
+
+
+@rule('C01', 'complementary-product')
+def complementary_product(ctx):
+    """The user's complementary space and the master key's universe enumerate combinations of dimensions with the SAME
+    enumerator: every iteration over the attributes of dimensions goes through `combine` (who-may-enumerate), and
+    generate_complementary_points applies it both to the semantic space of the clause and to the unmentioned dimensions,
+    taking the product of the two."""
+    F = ctx.F
+    enumerators = set()
+    for body in F.fns():
+        if body.calls(r'dimension::Dimension::attributes$'):
+            enumerators.add(body.root or body.key)
+    allowed = {'abe_policy::access_structure::combine'}
+    extra = sorted(k for k in enumerators if k not in allowed and not k.startswith('abe_policy::dimension::') and 'test_utils' not in k)
+    ctx.check(not extra, 'abe_policy::access_structure::combine', 'only combine enumerates attribute combinations',
+              '%s iterate(s) over the attributes of dimensions without going through `combine`: user rights and master rights may no '
+              'longer be enumerated the same way' % extra, 'combine only', '')
+    gb = F.fn('abe_policy::access_structure::AccessStructure::generate_complementary_points')
+    cs = []
+    for fb in lib.reach_bodies(F, gb.key, stop=['abe_policy::access_structure::combine']):
+        cs += fb.calls(r'access_structure::combine$')
+    ctx.check(len(cs) == 2, gb.key, 'combine(semantic) x combine(unmentioned)',
+              'generate_complementary_points calls combine %d time(s); the complementary space is the product of the combinations of '
+              'the semantic space and of the combinations of the unmentioned dimensions' % len(cs), '2 calls', gb.where())
+    om = F.fn('abe_policy::access_structure::AccessStructure::omega')
+    ctx.check(len(om.calls(r'access_structure::combine$')) == 1, om.key, 'omega = combine(all dimensions)',
+              'omega no longer enumerates the universe through combine', 'combine(universe)', om.where())
